@@ -582,7 +582,7 @@ class Array:
         data = []
         qdata = []
         # iterate over all qindices compatible with qtotal
-        qindices = np.array([qi for qi in res._iter_all_blocks()], dtype=np.intp)
+        qindices = np.array([qi for qi in res._iter_all_blocks()], dtype=np.intp).reshape(-1, res.rank)
         block_charges = res._get_block_charge(qindices.T)  # .T: allows to use 2D `qindices`
         compatible = np.all(block_charges == res.qtotal, axis=1)
         for qindices in qindices[compatible]:
@@ -648,9 +648,12 @@ class Array:
             legs = [pipe, pipe.conj()]
         else:
             legs = [leg, leg.conj()]
-        res = Array.from_func(func, legs, dtype, None, func_args, func_kwargs, shape_kw, labels)
-        if not blocked:
-            return res.split_legs()
+        if blocked:
+            return Array.from_func(func, legs, dtype, None, func_args, func_kwargs, shape_kw, labels)
+        # the labels belong to the legs of the result, not to the temporary pipes
+        res = Array.from_func(func, legs, dtype, None, func_args, func_kwargs, shape_kw).split_legs()
+        if labels is not None:
+            res.iset_leg_labels(labels)
         return res
 
     def zeros_like(self):
